@@ -544,7 +544,13 @@ EQUIV = [
     (["m = 5", "10 m"], "10 5"), (["kb = 3", "2 kb + 1"], "2 3 + 1"), (["t = 15:30", "12/12/2020 at t"], "12/12/2020 at 15:30"),
     (["t = 15:30", "x = 12/12/2020 at t", "x as unix"], "12/12/2020 at 15:30 as unix"), (["n = 7", "12/12/2020 at n"], "12/12/2020 at 7"),
     (["x = 20 usd", "x is 10% of what"], "20 usd is 10% of what"), (["share = 20 is what % of 80", "share of 200"], "25% of 200"),
-    (["k = 3 km", "k + 500 m"], "3 km + 500 m"), (["z = 12:30 EST", "z to CET"], "12:30 EST to CET"),
+    (["k = 3 km", "k + 500 m"], "3 km + 500 m"), (["a = 2 hours", "a 30 minutes"], "2 hours 30 minutes"),
+    (["a = 1 year", "b = 2 months", "c = 3 weeks", "d = 4 days", "e = 5 hours", "f = 6 minutes", "a b c d e f"],
+     "1 year 2 months 3 weeks 4 days 5 hours 6 minutes"),
+    (["a = 1 day", "b = 2 hours", "c = 3 minutes", "a b c"], "1 day 2 hours 3 minutes"),
+    (["a = 1 day", "b = 2 hours", "c = 3 minutes", "d = 4 seconds", "total = a b c d", "total 5 seconds"], "1 day 2 hours 3 minutes 9 seconds"),
+    (["a = 2 hours", "1 hour + a 30 minutes"], "1 hour + 2 hours 30 minutes"), (["t = 10:30", "t 2 hours"], "10:30 2 hours"),
+    (["d = 12/12/2020", "d 2 weeks"], "12/12/2020 2 weeks"), (["n = 3", "n 10% of 50"], "3 10% of 50"), (["u = 10 usd", "u 5 usd to try"], "10 usd 5 usd to try"), (["z = 12:30 EST", "z to CET"], "12:30 EST to CET"),
 ]
 
 
